@@ -239,8 +239,14 @@ pub fn eval_node<F: FnMut(&GraphColoredVertices, &str)>(
                     let domain_set = eval_context.domain_raw_sets.get(domain.as_str()).unwrap();
 
                     // check edge case of an empty domain (in that case we cannot restrict the domain,
-                    // there would be an error)
-                    if domain_set.is_empty() {
+                    // there would be an error); the domain must be non-empty within the current unit
+                    // set, which may already be restricted by domains of the enclosing quantifiers
+                    let var_domain = compute_valid_domain_for_var(graph, domain_set, &var);
+                    if graph
+                        .unit_colored_vertices()
+                        .intersect(&var_domain)
+                        .is_empty()
+                    {
                         return match op.clone() {
                             HybridOp::Bind => graph.mk_empty_colored_vertices(),
                             HybridOp::Exists => graph.mk_empty_colored_vertices(),
@@ -250,7 +256,6 @@ pub fn eval_node<F: FnMut(&GraphColoredVertices, &str)>(
                     }
 
                     // restrict the var domain in unit BDD of the graph
-                    let var_domain = compute_valid_domain_for_var(graph, domain_set, &var);
                     let restricted_graph = restrict_stg_unit_bdd(graph, &var_domain);
 
                     let child_eval = eval_node(
